@@ -22,7 +22,8 @@ ASSUMPTIONS = ["the response constructor's headers= argument is not a 'mutating 
 KEYS = ["x", "X", "y", "a\rb", "a\nb", "a\0b"]
 VALUES = ["ok", "é", "a;b", "", "a\rb", "a\nb", "a\0b", "a\r\nset-cookie: x=1", "attachment; filename=" + "文件" * 14 + ".txt"]
 DEPTH = {"quick": 3, "thorough": 4}
-COOKIE_ALPHA = ["\r", "\n", "\0", ";", ",", "=", '"', "\\", " ", "a", "é", "\x7f", "\x80", "中"]
+COOKIE_ALPHA = ["\r", "\n", "\0", ";", ",", "=", '"', "\\", " ", "a", "é", "\x7f", "\x80", "中",
+                "\u037e", "\uff1b", "\u2028"]  # a character that is canonically equivalent to ';', one that is so by compatibility, a line separator
 COOKIE_LEN = {"quick": 2, "thorough": 3}
 URL_ALPHA = ["\r", "\n", "\0", " ", "é", "%", "/", "?", "#", ":", "a"]
 BADCH = ("\r", "\n", "\0")
@@ -299,6 +300,29 @@ def header_strings(r, iface, tier):
                     res = emit(iface, resp)
                     for pr in line_problems(res):  # CR, LF, NUL only: a TAB is legal in a field value as far as this property goes
                         r.violation("headers:emitted-line", w, f"{iface} after {pname}({s_!r}): {pr}")
+    # long values (around every power of two from 2^8 to 2^17) with one control character near the start, in the middle or at the
+    # end; and a long harmless value that is there already when a short hostile piece is appended to it
+    for L in sorted({2 ** k + d for k in range(8, 18) for d in (-1, 0, 1)}):
+        for ch in ("\r", "\n", "\0"):
+            for pos in (1, L // 2, L - 1):
+                s_ = "a" * pos + ch + "a" * (L - pos - 1)
+                for pname, fn in paths.items():
+                    for as_name in (False, True):
+                        if as_name and pname in ("append-existing", "ior-like-update-kw"):
+                            continue
+                        resp = fresh(iface, (("x-old", "a" * (L - 3)),))
+                        r.count("evaluations")
+                        r.count("distinct_nontrivial")
+                        piece = s_ if pname != "append-existing" else s_[pos - 1:pos + 2]
+                        w = {"kind": "hdrstring", "iface": iface, "path": pname, "string": f"<{L} chars, {ch!r} at {pos}>", "as_name": as_name, "long": [L, ch, pos]}
+                        try:
+                            fn(resp.headers, s_ if as_name else "x-new", "ok" if as_name else piece)
+                            r.violation(f"headers:hostile-string-accepted:{pname}", w, f"{iface} headers {pname} accepted a {'name' if as_name else 'value'} of {len(piece)} characters with {ch!r} at position {pos if piece is s_ else 1} without ValueError" + (f" (appended to a clean value of {L - 3} characters)" if piece is not s_ else ""))
+                        except ValueError:
+                            pass
+                        res = emit(iface, resp)
+                        for pr in line_problems(res):
+                            r.violation("headers:emitted-line", w, f"{iface} after {pname} with a {L}-character string holding {ch!r}: {pr:.200}")
     # values that are not exactly str: a str subclass (a "safe markup" wrapper), a str-valued enum member
     import enum
 
